@@ -3,6 +3,7 @@ package main
 import (
 	"fmt"
 	"go/constant"
+	"go/token"
 	"sort"
 	"strings"
 
@@ -286,15 +287,43 @@ func (f *Flow) runOne(fr *Frame, st0 string) []string {
 					}
 				}
 			case *ssa.Return:
-				rets := ""
-				if f.TrackBoolReturns {
+				// facts about returned values: boolean constants, nil / non-nil errors, and
+				// facts passed through from inner calls; they depend on the facts of each state
+				retsFor := func(facts string) string {
+					if !f.TrackBoolReturns {
+						return ""
+					}
 					var rs []string
 					for i, v := range returnedValues(in) {
-						if c, ok := v.(*ssa.Const); ok && c.Value != nil && c.Value.Kind() == constant.Bool {
-							rs = append(rs, fmt.Sprintf("%d=%s", i, c.Value.ExactString()))
+						if c, ok := v.(*ssa.Const); ok {
+							if c.Value == nil {
+								rs = append(rs, fmt.Sprintf("%d=nil", i))
+							} else if c.Value.Kind() == constant.Bool {
+								rs = append(rs, fmt.Sprintf("%d=%s", i, c.Value.ExactString()))
+							}
+							continue
+						}
+						if id, idx, ok := callResultOf(v, fn); ok {
+							if val, ok := factOf(facts, id, idx); ok {
+								rs = append(rs, fmt.Sprintf("%d=%s", i, val))
+								continue
+							}
+						}
+						for _, e := range DomEdges(b) {
+							iff := e.From.Instrs[len(e.From.Instrs)-1].(*ssa.If)
+							base, neg := condOf(iff.Cond)
+							if bo, ok := base.(*ssa.BinOp); ok && bo.X == v && isNilConst(bo.Y) && (bo.Op == token.NEQ || bo.Op == token.EQL) {
+								nonnil := (bo.Op == token.NEQ) == ((e.Succ == 0) != neg)
+								if nonnil {
+									rs = append(rs, fmt.Sprintf("%d=nonnil", i))
+								} else {
+									rs = append(rs, fmt.Sprintf("%d=nil", i))
+								}
+								break
+							}
 						}
 					}
-					rets = strings.Join(rs, ",")
+					return strings.Join(rs, ",")
 				}
 				for _, es := range cur {
 					e := dec(es)
@@ -305,7 +334,7 @@ func (f *Flow) runOne(fr *Frame, st0 string) []string {
 						}
 					}
 					for _, o := range outs {
-						exits = append(exits, o+retSep+rets)
+						exits = append(exits, o+retSep+retsFor(e.facts))
 					}
 				}
 				terminated = true
@@ -339,20 +368,17 @@ func (f *Flow) runOne(fr *Frame, st0 string) []string {
 		if terminated || len(cur) == 0 {
 			continue
 		}
-		// boolean facts may decide an If
+		// facts about call results may decide an If
 		var factCall string
-		factIdx, factNeg, haveCond := 0, false, false
+		factIdx, factNeg, haveCond, nilTest, nilOpNeq := 0, false, false, false, false
 		if f.TrackBoolReturns && len(b.Succs) == 2 {
 			if iff, ok := b.Instrs[len(b.Instrs)-1].(*ssa.If); ok {
 				base, neg := condOf(iff.Cond)
-				switch x := base.(type) {
-				case *ssa.Call:
-					if x.Parent() == fn {
-						factCall, factIdx, factNeg, haveCond = instrID(x), 0, neg, true
-					}
-				case *ssa.Extract:
-					if c, ok := x.Tuple.(*ssa.Call); ok && c.Parent() == fn {
-						factCall, factIdx, factNeg, haveCond = instrID(c), x.Index, neg, true
+				if id, idx, ok := callResultOf(base, fn); ok {
+					factCall, factIdx, factNeg, haveCond = id, idx, neg, true
+				} else if bo, ok := base.(*ssa.BinOp); ok && isNilConst(bo.Y) && (bo.Op == token.NEQ || bo.Op == token.EQL) {
+					if id, idx, ok := callResultOf(bo.X, fn); ok {
+						factCall, factIdx, factNeg, haveCond, nilTest, nilOpNeq = id, idx, neg, true, true, bo.Op == token.NEQ
 					}
 				}
 			}
@@ -362,8 +388,17 @@ func (f *Flow) runOne(fr *Frame, st0 string) []string {
 				e := dec(es)
 				if haveCond {
 					if v, ok := factOf(e.facts, factCall, factIdx); ok {
-						truth := (v == "true") != factNeg
-						if truth != (si == 0) {
+						known := true
+						truth := false
+						switch {
+						case !nilTest && (v == "true" || v == "false"):
+							truth = (v == "true") != factNeg
+						case nilTest && (v == "nil" || v == "nonnil"):
+							truth = ((v == "nonnil") == nilOpNeq) != factNeg
+						default:
+							known = false
+						}
+						if known && truth != (si == 0) {
 							continue
 						}
 					}
@@ -523,3 +558,18 @@ func (p *Prog) AllFuncSet() map[*ssa.Function]bool {
 }
 
 func (f *Flow) sawState(s string) bool { return f.Seen[s] }
+
+// callResultOf: v is the value (or extracted component) of a call made in fn.
+func callResultOf(v ssa.Value, fn *ssa.Function) (id string, idx int, ok bool) {
+	switch x := v.(type) {
+	case *ssa.Call:
+		if x.Parent() == fn {
+			return instrID(x), 0, true
+		}
+	case *ssa.Extract:
+		if c, isCall := x.Tuple.(*ssa.Call); isCall && c.Parent() == fn {
+			return instrID(c), x.Index, true
+		}
+	}
+	return "", 0, false
+}
